@@ -281,6 +281,12 @@ func c10Structured(r *fw.Rec, kind string, blk, nblk int) {
 			add("0xK7FFF8000000000000000", "inf")
 			add("0xKFFFF8000000000000000", "inf")
 		case "fp128":
+			// values that are exactly doubles, the subnormal doubles among them
+			for _, d := range []float64{math.SmallestNonzeroFloat64, 3 * math.SmallestNonzeroFloat64, 0x1p-1073, 0x1.fffffffffffffp-1023 / 2, 0x0.fffffffffffffp-1022, 0x1p-1022, 0x1.8p-1022, 1, 1.5, 0x1.fffffffffffffp+1023, 0x1p-1050, 0x1.234p-1060} {
+				for _, sgn := range []float64{1, -1} {
+					add(fp128FromDouble(sgn*d), "exactly-a-double")
+				}
+			}
 			add("0xL00000000000000007FFF800000000000", "nan-canonical")
 			add("0xL0000000000000000FFFF800000000000", "nan-canonical")
 			add("0xL00000000000000007FFF000000000000", "inf")
@@ -617,8 +623,14 @@ func c10Judge(r *fw.Rec, tag string, lits []fpLit) {
 	}
 	// through the assembler as well (one batched module)
 	var sb strings.Builder
+	// every third literal is typed through a name of the kind (`%fl = type double`)
+	fmt.Fprintf(&sb, "%%fl = type %s\n", kind)
 	for k, i := range outIdx {
-		fmt.Fprintf(&sb, "@g%d = global %s %s\n", k, kind, lits[i].spell)
+		if k%3 == 2 {
+			fmt.Fprintf(&sb, "@g%d = global %%fl %s\n", k, lits[i].spell)
+		} else {
+			fmt.Fprintf(&sb, "@g%d = global %s %s\n", k, kind, lits[i].spell)
+		}
 	}
 	asmOut := map[int]string{}
 	if m, perr, pmsg := parseGuard(tag, sb.String()); pmsg == "" && perr == nil {
@@ -726,4 +738,23 @@ func ppcCanonicalPair(lit string) bool {
 	sum.Add(sum, new(big.Float).SetPrec(2300).SetFloat64(lo))
 	h2, _ := sum.Float64()
 	return h2 == hi
+}
+
+// fp128FromDouble spells the fp128 literal (0xL, low 64 bits first) of a finite
+// non-zero double: sign, exponent rebiased to 16383, the 52 fraction bits (or
+// the normalised bits of a subnormal double) at the top of the 112-bit fraction.
+func fp128FromDouble(d float64) string {
+	sign := uint64(0)
+	if math.Signbit(d) {
+		sign = 1
+	}
+	fr, e := math.Frexp(math.Abs(d)) // |d| = fr * 2^e, fr in [0.5, 1)
+	// fr*2 in [1, 2): fraction bits = (fr*2 - 1) * 2^112, exact (fr has at most 53 bits)
+	m := new(big.Float).SetPrec(200).SetFloat64(fr*2 - 1)
+	m.SetMantExp(m, 112)
+	mi, _ := m.Int(nil)
+	exp := uint64(e - 1 + 16383)
+	hi := sign<<63 | exp<<48 | new(big.Int).Rsh(mi, 64).Uint64()
+	lo := new(big.Int).And(mi, new(big.Int).SetUint64(^uint64(0))).Uint64()
+	return fmt.Sprintf("0xL%016X%016X", lo, hi)
 }
